@@ -637,7 +637,7 @@ func c13Direct(c *Ctx, r *Result, idx int, seed int64, nearMiss, overlap bool, c
 	sig := c13GenSig(rng, nearMiss && rng.Intn(2) == 0)
 	src := sig.mro("", false)
 	_, _, ast, err := syntax.ParseSourceBytes([]byte(src), "c13.mro", nil, false)
-	expectDup := c13HasDupNames(sig)
+	expectDup := c13ModelDup(c, sig)
 	if err != nil {
 		msg := err.Error()
 		isDup := strings.Contains(msg, "DuplicateNameError") && strings.Contains(msg, "output name")
@@ -885,7 +885,31 @@ func c13MultiDimLeaf(t *c13Ty, v *c13J, found *bool) {
 	}
 }
 
-// generator-side duplicate-name predicate (mirrors Props.C13 NoDupNames)
+// c13ModelDup: the model's decidable mirror of StructType.compile's duplicate
+// output-name check (Martian.PostProcess.noDupNames, hypothesis of
+// dest_injective_partial) on the stage's out params and on every struct.
+func c13ModelDup(c *Ctx, sig *c13Sig) bool {
+	lists := [][]c13Member{sig.Params}
+	for _, s := range sig.Structs {
+		lists = append(lists, s.Ms)
+	}
+	dup := false
+	for _, ms := range lists {
+		switch c.Drv.Ask("C13.nodup", c13EncParams(ms)) {
+		case "true":
+		case "false":
+			dup = true
+		default:
+			fatal("C13.nodup: bad driver reply")
+		}
+	}
+	if dup != c13HasDupNames(sig) {
+		c.Res.note("model noDupNames and the generator's own predicate disagree on %s", sig.mro("", false))
+	}
+	return dup
+}
+
+// generator-side duplicate-name predicate (cross-check of the model's)
 func c13HasDupNames(sig *c13Sig) bool {
 	check := func(ms []c13Member) bool {
 		seen := map[string]bool{}
